@@ -23,7 +23,8 @@ for (name, props, f, old, new) in mm.M:
     out.append('| `%s` | `%s` | %s | %s |' % (name, f.replace('src/', ''), ' '.join(k) or '(not run)', ' '.join(s)))
 out.append('\nAll 30 own mutants are caught by the check of the property they were written against. The ones listed as not caught were\nextra checks tried against the same change: `c02_xor_ge_hd_returns_0_again` is outside C05\'s quantifier (>= hd erasures),\n`c05_data_table_bit` does not change any fragments_needed answer, `c15_decode_writes_input_header` writes a value the\nbyte already has (only the read-only page sees it).\n')
 out.append('### 11.2 Independently seeded changes (`seeded/<id>/`)\n')
-out.append('Written by fresh sub-agents that saw only the property text and a scratch worktree (nothing from `/verif`). Each was\nconfirmed before it was kept: library builds, the repository suite passes (exit 0) with the change, the agent\'s\ndemonstration fails with the change and passes without it (`tools/import_seed.py`). Then `tools/mutants.py --seeded`.\n')
+out.append('Written by fresh sub-agents that saw only the property text and a scratch worktree (nothing from `/verif`). Each was\nconfirmed before it was kept: library builds, the repository suite passes (exit 0) with the change, the agent\'s\ndemonstration fails with the change and passes without it (`tools/import_seed.py`). Then `tools/mutants.py --seeded`.\n'
+           'Eight rounds (s1..s8). From the second round on each prompt also listed, in one line each, the changes ALREADY seeded for\nthat property (so that the next one would differ) and, from the fourth round on, a growing list of ideas not to repeat -\nnothing about the checks themselves. Two departures from the isolation rule are known and kept on record: several agents\nreported having run `git log` inside their worktree (the library\'s own history), and the agent of `C15-s5` reported having\nseen commit subjects of this repository; their changes were kept - it can only have made them harder to catch.\n')
 out.append('| id | what it breaks / what it needs to manifest | caught by | tried, not caught |\n|---|---|---|---|')
 for mp in sorted(glob.glob(os.path.join(VERIF, 'seeded', '*', 'meta.json'))):
     m = json.load(open(mp))
